@@ -49,7 +49,18 @@ def tokenize(src):
         if not m:
             if src[i:].strip() == "":
                 break
-            raise Reject(f"cannot tokenize near: {src[i:i+40]!r}")
+            # outside the subset (member access, char literal...): an opaque token; any function using it is skipped/rejected by the parser
+            j = i
+            while src[j].isspace():
+                j += 1
+            if src[j] == "'":
+                k = j + 1
+                while src[k] != "'":
+                    k += 2 if src[k] == "\\" else 1
+                out.append(("opaque", src[j:k + 1])); i = k + 1
+            else:
+                out.append(("opaque", src[j])); i = j + 1
+            continue
         i = m.end()
         if m.group(1) or m.group(2):
             continue
@@ -127,9 +138,12 @@ class Parser:
                 if params is not None:
                     self.eat("op", ")")
                     if self.at("{"):
-                        body = self.block()
-                        fns[name] = {"ret": ty, "params": params, "body": body}
-                        continue
+                        try:
+                            body = self.block()
+                            fns[name] = {"ret": ty, "params": params, "body": body}
+                            continue
+                        except Reject:
+                            pass   # outside the subset: not available to B2 (only an error if the plan names it)
             # skip to next top-level ; or balanced {}
             self.i = j
             depth = 0
